@@ -583,11 +583,34 @@ func countMatch(p *Program, id string, root *ssa.Function, qc *ssa.Call, n int, 
 	}
 	walk(phi)
 	for _, l := range leaves {
-		if !isConstInt(l, 1) {
+		if !isConstInt(l, 1) && !isConstInt(l, 0) {
 			ob.Verdict = Violated
-			ob.Detail = "the match counter is not initialised to exactly 1 (the leader itself): found " + p.Canon(fr, l).S
+			ob.Detail = "the match counter is not initialised to 1 for a voting leader / 0 for a non-voting one: found " + p.Canon(fr, l).S
 			return []Obligation{ob}
 		}
+	}
+	// the leader counts itself only if it is a voter: every constant 1 enters the counter on an edge that is taken
+	// only when r.configuration.IsVoter[r.id] holds, and some constant enters it at all
+	selfTrue := selfVoterBlocks(p, fr, root)
+	entered := false
+	for ph := range web {
+		for i, e := range ph.Edges {
+			c := stripConv(e)
+			if !isConstInt(c, 1) && !isConstInt(c, 0) {
+				continue
+			}
+			entered = true
+			if isConstInt(c, 1) && !dominatedByAny(selfTrue, ph.Block().Preds[i]) && !selfVoterEdge(p, fr, ph.Block().Preds[i], ph.Block()) {
+				ob.Verdict = Violated
+				ob.Detail = "the match counter starts at 1 — the leader counts itself — whether or not the leader is a voter: a leader that was demoted to non-voter (AddServer(self, false)) beside three voters commits with the acknowledgement of ONE of them, " +
+					"and the other two elect a leader that never saw the entry"
+				return []Obligation{ob}
+			}
+		}
+	}
+	if !entered {
+		ob.Verdict, ob.Detail = Undecided, "the initial value of the match counter was not found"
+		return []Obligation{ob}
 	}
 	// freshness per index: no phi of the counter web may live in the header of the index loop
 	idxPhi, _ := stripConv(idxVal).(*ssa.Phi)
@@ -600,7 +623,7 @@ func countMatch(p *Program, id string, root *ssa.Function, qc *ssa.Call, n int, 
 			}
 		}
 	}
-	ob.Verdict, ob.Detail = Discharged, fmt.Sprintf("counter initialised to 1 per index, %d increment site(s)", len(adds))
+	ob.Verdict, ob.Detail = Discharged, fmt.Sprintf("counter initialised per index to 1 if this node is a voter and 0 otherwise, %d increment site(s)", len(adds))
 	out := []Obligation{ob}
 	if len(adds) == 0 {
 		return out
@@ -1024,4 +1047,50 @@ func ruleOwners() *Rule {
 			return out
 		},
 	}
+}
+
+
+// selfVoterBlocks: the blocks of fn entered only when r.configuration.IsVoter[r.id] is true (the true successor of a
+// branch on it, or the false successor of a branch on its negation, with that branch as only predecessor).
+func selfVoterBlocks(p *Program, fr *Frame, fn *ssa.Function) []*ssa.BasicBlock {
+	var out []*ssa.BasicBlock
+	for _, b := range fn.Blocks {
+		iff, ok := b.Instrs[len(b.Instrs)-1].(*ssa.If)
+		if !ok {
+			continue
+		}
+		s := p.Canon(fr, iff.Cond).S
+		edge := 0
+		if strings.HasPrefix(s, "!") {
+			s, edge = strings.TrimPrefix(s, "!"), 1
+		}
+		if s == "r.configuration.IsVoter[r.id]" && len(b.Succs[edge].Preds) == 1 {
+			out = append(out, b.Succs[edge])
+		}
+	}
+	return out
+}
+
+func dominatedByAny(doms []*ssa.BasicBlock, b *ssa.BasicBlock) bool {
+	for _, d := range doms {
+		if d.Dominates(b) {
+			return true
+		}
+	}
+	return false
+}
+
+
+// selfVoterEdge: the edge from -> to is the arm of a branch on r.configuration.IsVoter[r.id] taken when it is true.
+func selfVoterEdge(p *Program, fr *Frame, from, to *ssa.BasicBlock) bool {
+	iff, ok := from.Instrs[len(from.Instrs)-1].(*ssa.If)
+	if !ok {
+		return false
+	}
+	s := p.Canon(fr, iff.Cond).S
+	edge := 0
+	if strings.HasPrefix(s, "!") {
+		s, edge = strings.TrimPrefix(s, "!"), 1
+	}
+	return s == "r.configuration.IsVoter[r.id]" && from.Succs[edge] == to && from.Succs[1-edge] != to
 }
